@@ -184,7 +184,26 @@ fn gen(rng: &mut Rng, _i: u64) -> String {
 			let s: String = match rng.below(8) {
 				0 => "${".repeat(rng.range(250, 260) as usize),
 				1 => "'".repeat(rng.range(250, 258) as usize),
-				2 => format!("00 [{}-{}] 01", rng.below(17000), rng.below(17000)),
+				2 => {
+					// numeric operands of every magnitude: around the 16384 limit, around 2^16 / 2^32 / 2^64, and very long digit strings
+					let mut num = |rng: &mut Rng| -> String {
+						match rng.below(8) {
+							0 => rng.below(17000).to_string(),
+							1 => (16383 + rng.below(3)).to_string(),
+							2 => ((1u64 << 32) - 2 + rng.below(4)).to_string(),
+							3 => (u64::MAX - rng.below(2)).to_string(),
+							4 => "18446744073709551616".to_string(),
+							5 => (0..rng.range(1, 24)).map(|_| char::from(b'0' + rng.below(10) as u8)).collect(),
+							6 => format!("{}{}", "0".repeat(rng.range(1, 12) as usize), rng.below(300)),
+							_ => rng.below(300).to_string(),
+						}
+					};
+					match rng.below(3) {
+						0 => format!("00 [{}-{}] 01", num(rng), num(rng)),
+						1 => format!("00 [{}] 01", num(rng)),
+						_ => format!("00 [{}-{}] 01", rng.below(17000), rng.below(17000)),
+					}
+				},
 				3 => format!("({})", (0..rng.range(120, 135)).map(|_| "00").collect::<Vec<_>>().join(" ")) ,
 				4 => format!("( 00 | {} ) 01", "? 01 ".repeat(rng.range(120, 130) as usize)),
 				5 => "( 6a ? | 68 ? ) ? e8".to_string(),
